@@ -11,14 +11,13 @@ import (
 
 func allPairs(n int) [][2]byte {
 	var ps [][2]byte
-	// n x n grid over the boundary bytes, spread evenly
-	step := len(pairBytes) / n
-	if step < 1 {
-		step = 1
-	}
-	for i := 0; i < len(pairBytes); i += step {
-		for j := 0; j < len(pairBytes); j += step {
-			ps = append(ps, [2]byte{pairBytes[i], pairBytes[(j+i)%len(pairBytes)]})
+	// n x n grid over the boundary bytes, spread evenly (the second byte is rotated so that
+	// the diagonal does not pair every byte with itself)
+	for i := 0; i < n; i++ {
+		for j := 0; j < n; j++ {
+			a := i * len(pairBytes) / n
+			b := (j*len(pairBytes)/n + a) % len(pairBytes)
+			ps = append(ps, [2]byte{pairBytes[a], pairBytes[b]})
 		}
 	}
 	return ps
@@ -56,9 +55,9 @@ func psimSteps(code []byte) int64 {
 // GenC01: exhaustive single-instruction sweep + random programs + memory / sbrk programs.
 func GenC01(r *h.Rng, tier string, emit func(string)) {
 	st := h.Stats{}
-	np, nrand, nmem, nsbrk := 3, 25000, 8000, 3000
+	np, nrand, nmem, nsbrk := 3, 18000, 8000, 3000
 	if tier == "thorough" {
-		np, nrand, nmem, nsbrk = 16, 600000, 200000, 60000
+		np, nrand, nmem, nsbrk = 8, 300000, 100000, 30000
 	}
 	genSweep(r, SweepOpts{Pairs: allPairs(np), InvalidOps: true, OpenEnd: true}, emit, st)
 	for i := 0; i < nrand; i++ {
@@ -87,7 +86,7 @@ func GenC01(r *h.Rng, tier string, emit func(string)) {
 // GenC04: every gas limit 0..steps+1 for random programs; Psi_M with limits up to and over 2^63.
 func GenC04(r *h.Rng, tier string, emit func(string)) {
 	st := h.Stats{}
-	nprog := 5000
+	nprog := 4000
 	if tier == "thorough" {
 		nprog = 60000
 	}
